@@ -95,8 +95,9 @@ LABEL_NAMES = ["L", "LOOP", "EXIT", "skip", "end_1", "A", "B2", "Lx", "again", "
 
 @st.composite
 def st_program(draw, max_blocks=6):
-    nregs_extra = draw(st.sampled_from([0, 0, 0, 2, 6, 12]))
-    pool = VARS + MORE_R[:nregs_extra]
+    nregs_extra = draw(st.sampled_from([0, 0, 0, 2, 6, 9, 10, 11, 12]))
+    # which of R4..R15 the program names (when few stay free, it matters which ones)
+    pool = VARS + (MORE_R[:nregs_extra] if draw(st.booleans()) else sorted(draw(st.permutations(MORE_R))[:nregs_extra], key=lambda r: int(r[1:])))
     use_init = draw(st.integers(0, 3)) == 0
     init_regs: Dict[str, int] = {}
     prog: List[Any] = []
@@ -150,6 +151,12 @@ def st_program(draw, max_blocks=6):
         idx_only = "R9"
     else:
         idx_only = None
+    stop_only = None
+    free_r = [f"R{i}" for i in range(16) if f"R{i}" not in pool and f"R{i}" != "R9"]
+    if use_init and free_r and draw(st.integers(0, 1)) == 0:
+        # a register that the program only ever names as the upper bound of a slice (the lowest-numbered one it does not use otherwise)
+        stop_only = free_r[0]
+        init_regs[stop_only] = 3
     arrays = {}
     for a in draw(st.lists(st.sampled_from(ADDRS), min_size=1, max_size=3, unique=True)):
         n = draw(st.integers(3, 8))
@@ -198,6 +205,8 @@ def st_program(draw, max_blocks=6):
         if draw(st.integers(0, 1)):
             return ["wait_single", [{"addr": a, "idx": idx_operand()}]]
         lo = draw(st.integers(0, 2))
+        if stop_only and draw(st.booleans()):
+            return [draw(st.sampled_from(["wait_all", "wait_any"])), [{"addr": a, "start": lo, "stop": stop_only}]]
         return [draw(st.sampled_from(["wait_all", "wait_any"])), [{"addr": a, "start": lo if draw(st.integers(0, 1)) else "C0", "stop": lo + draw(st.integers(1, 2))}]]
 
     recent: List[Any] = []
@@ -573,7 +582,10 @@ def check(case) -> Dict[str, Any]:
             if "no registers left" in str(e):
                 info["rejected"] = "no-registers-left"
                 named_r = [r for r in named_registers(case["prog"]) if r.startswith("R")]
-                if len(named_r) < 16 - 3:
+                # at most one scratch register per literal operand of a single command is needed at a time
+                need = max([sum(1 for o in ins[1] if isinstance(o, int) and not isinstance(o, bool)) + sum(1 for o in ins[1] if isinstance(o, dict) for k_ in ("idx", "start", "stop") if isinstance(o.get(k_), int))
+                            for ins in case["prog"] if ins[0] != "label"] or [0])
+                if len(named_r) + need <= 16:
                     raise Failure(f"{route}:spurious-no-registers", dict(case, text=text), f"assembler ran out of registers although the source names only {len(named_r)} R registers")
                 continue
             raise Failure(f"{route}:assemble-raises", dict(case, text=text), f"{route} assembly raised {type(e).__name__}: {e}")
